@@ -15,8 +15,13 @@ NONVISUAL = ['*tb8', '*solo', '*accomp', '*strophe', '*part1', '*group2', '*Ipia
 BBOX = ['*xywh-1:10,20,30,40', '*xywh-p2:0,0,5,5']
 FREE = ['Ky-', 'ri-e', 'e', 'le', 'p', 'f', 'mf', 'cresc.', 'V7', 'I', '1 2', 'col·legi', 'a@b', 'señor', 'été', '"quoted"', 'x,y', 'Hal-', '-le-', 'lu-jah', 'ff', 'sfz', '<', '>',
         'Cmaj7', 'N.C.', '5', '1', '3 5', 'do re', 'a b c', '...', 'r', 'rr', '4', '!comment', '!LO:TX:a', '**kern', '*-', '*^', '*v', '*+', '*x', 'ß', '日本', 'Ω', ' ', '  ', ' ']
+# text that is not in Unicode normal form, compatibility characters, combining sequences, bidi/zero-width characters
+UNICODE = ['e\u0301', 'n\u0303o', 'u\u0308ber', '\u212b', '\u2126', 'a\u0323\u0308', 'a\u0308\u0323', '\ufb01n', '\u00e9', 'I\u0307', '\u1e9e', 'x\u200by', '\u00a0', 'A\u030a',
+           '\u0041\u0300', '\uff21', '\u2160', 'c\u0327a', '\u1100\u1161', '\u0958']
 DAMAGED = ['4zz#', '4c@', '*clefG2x', '=1@', '4', '#c4', 'c4', '4c  4e', '=x', '*k[f#', '*M4', '*M/4', '*clef', '4cc##--', '*MMx', '*xywh-1:1,2,3', '4c 4', 'r4', '8..', '**', '***']
-ALL = NOTES + STRUCT + SIGS + CONTEXT + BARS + EMPTY + VISUAL + NONVISUAL + BBOX + FREE + DAMAGED
+DYNAMICS_LIKE = ['p', 'f', 'mf', 'I', 'V7', '1', '4e', 'do', 'e', 'c', 'r', 'Ky-', '4c', 'a', '2', 'ff']
+ALL = NOTES + STRUCT + SIGS + CONTEXT + BARS + EMPTY + VISUAL + NONVISUAL + BBOX + FREE + UNICODE + DAMAGED
 GROUPS = {'notes': NOTES, 'structural': STRUCT, 'signatures': SIGS, 'contextual': CONTEXT, 'barlines': BARS, 'empty': EMPTY, 'visual': VISUAL,
-          'nonvisual': NONVISUAL, 'bbox': BBOX, 'free': FREE, 'damaged': DAMAGED}
+          'nonvisual': NONVISUAL, 'bbox': BBOX, 'free': FREE, 'unicode': UNICODE, 'damaged': DAMAGED}
 LEXER_ALPHABET = '!%&@ABCDEFGHIJKLMNOPQRSTUVWXYZabcdefghijklmnopqrstuvwxyz0123456789*"\'[]{}#+-=.|`^~<>/\\_$():;,? áéñçÑ'
+WIDE_ALPHABET = LEXER_ALPHABET + '\u0301\u0303\u0308\u0323\u212b\u2126\ufb01\u200b\u00a0\uff21\u0130\u00df\u1e9e\u03a9\u65e5'
